@@ -4,6 +4,7 @@ import (
 	"fmt"
 	"go/token"
 	"go/types"
+	"sort"
 	"strings"
 
 	"golang.org/x/tools/go/ssa"
@@ -321,11 +322,12 @@ func deadAfter(v ssa.Value, call ssa.CallInstruction) bool {
 func (c *Check) optionStore() {
 	p := c.P
 	sp := p.SSAPkg("internal/driver")
-	g := sp.Var("currentCfg")
-	if g == nil {
-		c.undecided("C10-R3", "anchor:currentCfg", "", "global driver.currentCfg not found")
+	store := findOptionStore(p)
+	if store == nil {
+		c.undecided("C10-R3", "anchor:currentCfg", "", "the persistent option store of package driver (a package-level config, or a struct holding a config and its mutex) was not found")
 		return
 	}
+	g := store.global
 	allowedRefs := map[string]string{"currentConfig": "read", "setCurrentConfig": "write", "configure": "write", "init": "init"}
 	for _, r := range globalRefs(p, g) {
 		f := r.Parent()
@@ -400,6 +402,8 @@ func (c *Check) optionStore() {
 				switch {
 				case rk == rFresh:
 					c.ok("C10-R3", key, p.relFile(call.Pos()), sc.Name()+" applied in "+fnName(f), "receiver is a local copy")
+				case !store.direct && f.Signature.Recv() != nil && structName(f.Signature.Recv().Type()) == store.T && isStoreField(recv, store):
+					c.ok("C10-R3", key, p.relFile(call.Pos()), sc.Name()+" applied to the option store in its own method "+fnName(f), "the designated writer, under the store's mutex (C20)")
 				case rk == rGlobal && f.Name() == "configure":
 					c.ok("C10-R3", key, p.relFile(call.Pos()), sc.Name()+" applied to the option store in configure", "the designated writer, under currentMu")
 				case rk == rParam && f.Signature.Recv() != nil && structName(f.Signature.Recv().Type()) == "driver.config":
@@ -508,4 +512,82 @@ func configParamOK(p *Program, f *ssa.Function, v ssa.Value, depth int) bool {
 		}
 	}
 	return sites > 0
+}
+
+// optStore describes where package driver keeps the persistent options: a package-level
+// config guarded by a package-level mutex (global of type config), or a package-level struct
+// that holds the config next to its mutex.
+type optStore struct {
+	global   *ssa.Global
+	direct   bool   // the global itself is the config
+	muGlobal string // direct: lock identity of the guarding mutex ("global:<name>")
+	T        string // struct form: type name, e.g. "driver.configStore"
+	cfgField string
+	muField  string
+}
+
+func findOptionStore(p *Program) *optStore {
+	sp := p.SSAPkg("internal/driver")
+	if sp == nil {
+		return nil
+	}
+	var names []string
+	for n := range sp.Members {
+		names = append(names, n)
+	}
+	sort.Strings(names)
+	for _, n := range names {
+		g, ok := sp.Members[n].(*ssa.Global)
+		if !ok {
+			continue
+		}
+		et := g.Type().(*types.Pointer).Elem()
+		if structName(et) == "driver.config" {
+			st := &optStore{global: g, direct: true}
+			// the mutex: a package-level sync.Mutex held where the global is accessed
+			for _, ins := range globalRefs(p, g) {
+				for id := range heldAt(ins.Parent(), ins) {
+					if strings.HasPrefix(id, "global:") {
+						st.muGlobal = id
+					}
+				}
+			}
+			return st
+		}
+		if sty, ok := et.Underlying().(*types.Struct); ok {
+			st := &optStore{global: g, T: structName(et)}
+			for i := 0; i < sty.NumFields(); i++ {
+				ft := sty.Field(i).Type()
+				switch {
+				case structName(ft) == "driver.config":
+					st.cfgField = sty.Field(i).Name()
+				case ft.String() == "sync.Mutex" || ft.String() == "sync.RWMutex":
+					st.muField = sty.Field(i).Name()
+				}
+			}
+			if st.cfgField != "" && st.muField != "" && st.T != "" {
+				return st
+			}
+		}
+	}
+	return nil
+}
+
+// storeName: how reports call the store.
+func (s *optStore) storeName() string {
+	if s.direct {
+		return s.global.Name()
+	}
+	return s.global.Name() + "." + s.cfgField
+}
+
+// isStoreField: v is the address of the config field of the store's receiver.
+func isStoreField(v ssa.Value, s *optStore) bool {
+	fa, ok := v.(*ssa.FieldAddr)
+	if !ok {
+		return false
+	}
+	T, F := fieldOf(fa.X.Type(), fa.Field)
+	_, isParam := fa.X.(*ssa.Parameter)
+	return isParam && T == s.T && F == s.cfgField
 }
